@@ -12,6 +12,7 @@
 #include <limits>
 #include <type_traits>
 #include <sys/mman.h>
+#include <cfenv>
 
 using namespace Parma_Polyhedra_Library;
 using pplv::Rng;
@@ -77,12 +78,21 @@ static const char* kind_name(int k) { return k == 0 ? "box" : k == 1 ? "bds" : "
 static const char* cplx_name(Complexity_Class c) { return c == POLYNOMIAL_COMPLEXITY ? "poly" : c == SIMPLEX_COMPLEXITY ? "simplex" : "any"; }
 
 // ---- random data in the shape of a domain -----------------------------------------------------
-struct Profile { mpz_class hi; bool is_float, is_int, is_unsigned; };
+struct Profile {
+  mpz_class hi; bool is_float, is_int, is_unsigned;
+  bool limits;          // this history places bounds (and denominators) at / beyond the finite range of T
+  mpz_class big_den;    // a denominator that T cannot represent exactly (0: none)
+  Profile() : hi(0), is_float(false), is_int(false), is_unsigned(false), limits(false), big_den(0) {}
+};
 
 // a numerator for a bound `num/den`
 static Coefficient rnd_bound(Rng& r, const Profile& pf, long den) {
   unsigned k = r.below(24);
-  if (k < 15 || pf.hi == 0 && k < 22) return Coefficient(r.range(-6, 6));
+  if (k < 15 || pf.hi == 0 && k < 22 || (pf.hi != 0 && !pf.limits)) {
+    // (bounded T outside a limit history: moderate magnitudes only, far from the range limit)
+    if (pf.hi != 0 && k >= 15 && pf.hi > 100000) return Coefficient(r.range(-3000, 3000));
+    return Coefficient(r.range(-6, 6));
+  }
   if (pf.hi == 0) {   // unbounded types: occasionally very large
     Coefficient c = r.range(-9, 9); c *= 1000003; c *= 998244353; c *= 1000000007; c *= 1000000009; return c;
   }
@@ -157,7 +167,22 @@ struct Run {
   dimension_type maxdim;
   Profile pf;
   const char* tname;
-  Run(uint64_t seed, const char* tn) : r(seed), tname(tn) { Lim<typename Tr<S>::base>::get(pf.hi, pf.is_float, pf.is_int, pf.is_unsigned); }
+  Run(uint64_t seed, const char* tn) : r(seed), tname(tn) {
+    Lim<typename Tr<S>::base>::get(pf.hi, pf.is_float, pf.is_int, pf.is_unsigned);
+    if (pf.hi != 0) {
+      if (pf.is_float) {   // 2^p + 1 with p the precision of T
+        int p = std::numeric_limits<typename std::conditional<std::is_floating_point<typename Tr<S>::base>::value, typename Tr<S>::base, double>::type>::digits;
+        pf.big_den = 1; pf.big_den <<= p; pf.big_den += 1;
+      }
+      else pf.big_den = pf.hi + 73;
+    }
+  }
+  // operators whose behaviour at the range limit of a floating-point T is understood (comparisons, min/max,
+  // closure sums): the only ones applied in a limit history of a floating-point instantiation
+  bool float_limit_ok(unsigned k) const {
+    switch (k) { case 0: case 1: case 5: case 6: case 7: case 8: case 9: case 10: case 11: case 14: case 29: case 30: case 31: case 32:
+      case 33: case 34: case 35: case 36: case 37: case 40: case 41: case 42: case 43: return true; default: return false; }
+  }
 
   bool live(int s) const { return (bool)slot[s]; }
   dimension_type dim(int s) { return slot[s]->space_dimension(); }
@@ -191,16 +216,42 @@ struct Run {
     OS l; l << "st " << s << " " << t.substr(b, a == std::string::npos ? a : a - b);
     J.line(l.str());
   }
+  // For an inexact T the shortest-path reduction of a BD shape can flag as redundant a constraint that the rounded
+  // closure does not imply, so that constraints() of a shape marked reduced (= minimized_constraints()) is a weaker
+  // reading than the matrix the operators work on.  The matrix itself is read from a copy whose reduced flag has
+  // been cleared by adding and removing a space dimension (the copy is closed already: nothing else changes).
+  Constraint_System full_constraints(const S& x) {
+    if (K == 1 && !std::is_same<typename Tr<S>::base, mpq_class>::value) {
+      OS d; x.ascii_dump(d);
+      if (d.str().find("+SPR") != std::string::npos) {
+        S c(x); dimension_type n = c.space_dimension();
+        c.add_space_dimensions_and_embed(1); c.remove_higher_space_dimensions(n);
+        return c.constraints();
+      }
+    }
+    return x.constraints();
+  }
   // the set as the library reports it now; constraints() is const and does not touch the lazy state
   void arg(int s) {
     OS o; dimension_type n = dim(s);
-    o << "arg " << s << " " << n << " cons"; put_cs(o, slot[s]->constraints(), n);
+    o << "arg " << s << " " << n << " cons"; put_cs(o, full_constraints(*slot[s]), n);
     J.line(o.str());
     status_line(s);     // the lazy state at this very moment (an operand of a const method may have been closed meanwhile)
   }
+  // The library sets the FPU rounding direction to upward at initialization and relies on it in all floating-point
+  // bound arithmetic: an operation that leaves it changed makes every later result unreliable.
+  void check_rounding_mode() {
+    int m = fegetround();
+    if (m != FE_UPWARD) {
+      OS o; o << "note rounding-mode " << (m == FE_DOWNWARD ? "downward" : m == FE_TONEAREST ? "to-nearest" : m == FE_TOWARDZERO ? "toward-zero" : "other");
+      J.line(o.str());
+      fesetround(FE_UPWARD);
+    }
+  }
   void res(int s) {
+    check_rounding_mode();
     dimension_type n = dim(s);
-    { OS o; o << "res " << s << " " << n << " cons"; put_cs(o, slot[s]->constraints(), n); J.line(o.str()); }
+    { OS o; o << "res " << s << " " << n << " cons"; put_cs(o, full_constraints(*slot[s]), n); J.line(o.str()); }
     if (check_ok(s)) return;
     { S c(*slot[s]); OS o; o << "res " << s << " " << n << " mcons"; put_cs(o, c.minimized_constraints(), n); J.line(o.str()); }
     if (K == 0) {   // Polyhedron(Topology, const Box&) builds from the intervals directly: a third reading
@@ -297,6 +348,7 @@ struct Run {
       else query(s, *q);
     }
     status_line(s);
+    check_rounding_mode();
     if (!on_copy) check_ok(s);
   }
 
@@ -306,6 +358,8 @@ struct Run {
   void create(int s, dimension_type n) {
     OS o; o << "new " << s << " " << n << " ";
     unsigned k = r.below(20);
+    // (limit history of a floating-point T: constructors from constraint systems only, see float_limit_ok)
+    if (pf.limits && pf.is_float && k >= 10) { OS q; q << "note limit-skip-ctor " << k; J.line(q.str()); k = 2 + r.below(8); }
     if (k == 0) { o << "univ"; J.line(o.str()); slot[s].reset(new S(n, UNIVERSE)); }
     else if (k == 1) { o << "empty"; J.line(o.str()); slot[s].reset(new S(n, EMPTY)); }
     else if (k < 10) {
@@ -358,7 +412,7 @@ struct Run {
     else {   // from another weakly-relational domain over the rationals
       unsigned src = r.below(3);
       Complexity_Class c = rnd_cplx();
-      Profile q; q.hi = 0; q.is_float = q.is_int = q.is_unsigned = false;
+      Profile q;
       const Profile& sp = r.chance(1, 2) ? pf : q;    // bounds near the limits of the *target* type
       Constraint_System cs = tmpl_cs(r, n, src, src == 0, 5, sp);
       unsigned prep = r.below(3);
@@ -414,6 +468,7 @@ struct Run {
   // an expression whose transfer relation the domain can express, or an arbitrary one
   Linear_Expression img_expr(dimension_type n, dimension_type v, Coefficient& d) {
     d = r.chance(1, 4) ? r.range(-3, -1) : r.range(1, 3);
+    if (pf.limits && pf.big_den != 0 && r.chance(1, 4)) { d = pf.big_den; if (r.chance(1, 3)) d = -d; }
     unsigned k = r.below(10);
     if (k < 2) { Linear_Expression e; e += 0 * Variable(n - 1); e += Coefficient(r.range(-5, 5)); return e; }      // constant
     if (k < 6) { dimension_type w = r.chance(1, 3) ? v : r.below(n); Linear_Expression e; e += 0 * Variable(n - 1);
@@ -428,6 +483,11 @@ struct Run {
     dimension_type n = P.space_dimension();
     OS o;
     unsigned k = r.below(44);
+    if (pf.limits && pf.is_float && !float_limit_ok(k)) {
+      // counted in the evidence: operators not yet understood at the range limit of a floating-point T
+      OS q; q << "note limit-skip " << k; J.line(q.str());
+      return;
+    }
     bool reported = false;   // `op` line written
     try {
       switch (k) {
@@ -595,7 +655,8 @@ struct Run {
     maxdim = md;
     dimension_type n = r.below((unsigned)std::min<long>(md, 3) + 1);
     if (n < md && r.chance(1, 6)) ++n;
-    { OS o; o << "hist " << h << " " << seed << " " << kind_name(K) << " " << tname << " " << (OPEN ? 1 : 0); J.line(o.str()); }
+    pf.limits = (pf.hi != 0) && r.chance(1, 4);
+    { OS o; o << "hist " << h << " " << seed << " " << kind_name(K) << " " << tname << " " << (OPEN ? 1 : 0) << " lim=" << (pf.limits ? 1 : 0); J.line(o.str()); }
     try { create(0, n); create(1, n); if (r.chance(1, 2)) create(2, n); }
     catch (...) { J.line("exc " + pplv::exc_class()); }
     for (int i = 0; i < 2; ++i) if (!live(i)) { OS o; o << "new " << i << " " << n << " univ"; J.line(o.str()); slot[i].reset(new S(n, UNIVERSE)); res(i); }
